@@ -22,7 +22,7 @@ from mathy_core.tokenizer import TOKEN_TYPES, Token, Tokenizer
 
 from .. import shims
 from ..core import Report, Violation, collect, out_of_time, pmap, seed
-from ..symx import Ctx, Stats, SymInt, Unsupported, explore, frac_of
+from ..symx import Budget, Ctx, SelInt, Stats, SymInt, Unsupported, _arm, explore, frac_of
 from ..trees import audit, kind, preorder
 from ..zeval import Undefined, ceval, close, powr_axioms, var, zeval, _ipow
 from ..shims import FACT, POWR
@@ -102,6 +102,9 @@ class SymToken(Token):
             return token_text(self.i, t)
         c = self.ctx
         assert c is not None
+        if isinstance(t, SelInt) and t.vid in c.domains:
+            dom = c.domains[t.vid]
+            return token_text(self.i, next(iter(dom))) if len(dom) == 1 else "?"
         m = c.ensure_model()
         k = int(frac_of(m.eval(t.z, model_completion=True)))
         r, _ = c.query(t.z != k, timeout=2000)
@@ -133,6 +136,7 @@ class Unspecified(Exception):
 
 
 FIRST_ATOM = (T.Variable, T.Function, T.OpenParen)
+_EQ_MEMO: dict = {}
 
 
 class Ref:
@@ -145,6 +149,8 @@ class Ref:
         t = self.toks[self.pos].type
         if type(t) is int:
             return t in kinds
+        if isinstance(t, SelInt):
+            return bool(t.is_in(kinds))
         for k in kinds:
             if self.ctx.branch(t.z == k):  # type: ignore[union-attr]
                 return True
@@ -383,6 +389,8 @@ def run_real(parser: ExpressionParser, text: str):
         return "reject", type(e).__name__
     except RecursionError:
         raise
+    except Budget:
+        return "internal", "no result within the step / wall-clock budget (the parser does not terminate?)"
     except Exception as e:
         return "internal", f"{type(e).__name__}: {str(e)[:80]}"
     return "accept", tree
@@ -478,7 +486,11 @@ ENVS = [
 def concrete_check(kinds: List[int], env: Optional[Dict[str, Any]] = None) -> List[Tuple[str, str]]:
     """The same judgement on the real tokenizer+parser fed with the rendered text (no proxies, no stubs)."""
     text = render(kinds)
-    real = run_real(ExpressionParser(), text)
+    _arm(10.0)  # a parse of a handful of tokens that takes longer than this does not terminate
+    try:
+        real = run_real(ExpressionParser(), text)
+    finally:
+        _arm(0)
     ref = run_ref(concrete_tokens(kinds), None)
     out: List[Tuple[str, str]] = []
     for e in ([env] if env else []) + ENVS:
@@ -508,12 +520,9 @@ def worker(item: Tuple[int, Tuple[int, ...]]) -> Dict[str, Any]:
         kz = []
         for i in range(N):
             z = z3.Int(f"k{i}")
-            if i < len(pre):
-                ctx.add(z == pre[i])
-            else:
-                ctx.add(z3.Or([z == k for k in KINDS]))
+            ctx.declare_selector(z, [pre[i]] if i < len(pre) else KINDS)
             kz.append(z)
-            toks.append(SymToken(i, SymInt(z3.ToReal(z)), ctx))
+            toks.append(SymToken(i, SelInt(z), ctx))
         toks.append(Token("", T.EOF))
         parser = ExpressionParser()
         parser.tokenizer = FakeTokenizer(toks)
@@ -684,7 +693,7 @@ FUNCTIONS = ["ExpressionParser.parse/_parse/tokenize", "parse_equal/parse_add/pa
 
 def run(prop: str, tier: str) -> int:
     rep = Report(prop, tier)
-    Nmax = 5 if tier == "quick" else 7
+    Nmax = 6 if tier == "quick" else 7
     rep.bounds = {"tokens": f"every sequence of <= {Nmax} token kinds out of {len(KINDS)} (plus the end marker)",
                   "texts": "per-position distinct literals (2 3 2.5 7 11 ...) and variables (x y z w ...), function sgn",
                   "assignment": "unbounded reals (solver variables) for the value comparison"}
